@@ -90,6 +90,7 @@ struct Prog
 	std::string desc;
 	std::uint64_t keyseq = 1;
 	bool idle_hook = true;
+	std::int64_t t_base = 0; // virtual time at which the program's traffic starts
 
 	Prog(Args const& a_, std::uint64_t seed, std::string path) : a(a_), rng(seed), pcap_path(std::move(path)) {}
 
@@ -118,7 +119,10 @@ struct Prog
 		for (auto const& ad : addrs) ios.emplace_back(new asio::io_context(*sim, ad));
 		runner.reset(new Runner(*sim));
 		if (!idle_hook) sim->verif_step_hook = nullptr;
-		desc = fmt("%d nodes%s", nn, lossy ? " lossy" : "");
+		// some programs start late in virtual time (timestamp arithmetic beyond 2^32 us, beyond 2^31 ms, ...)
+		if (rng.coin(1, 3))
+			t_base = rng.pick(std::vector<std::int64_t>{4294000000000ll, 4294967000000ll, 5000000000000ll, 86400000000000ll, 2147483000000000ll, 100000000000ll});
+		desc = fmt("%d nodes%s start@%" PRId64 "s", nn, lossy ? " lossy" : "", t_base / 1000000000);
 
 		// TCP connections
 		int const nc = 1 + rng.choose(3);
@@ -161,7 +165,7 @@ struct Prog
 					tr(fmt("connect conn%d ec=%d local=%s:%u", cp->c.conn_id, e.value(), le.address().to_string().c_str(), unsigned(le.port())));
 					if (e) return; API(cp->cs->non_blocking(true, e2)); cp->c.start_read(); cp->c.start_write(); })));
 			};
-			if (delay == 0) go(); else after(delay, go);
+			if (delay == 0 && t_base == 0) go(); else after(delay, go);
 			desc += fmt(" | tcp n%d->n%d %" PRIu64 "/%" PRIu64, c.cn, c.sn, c.c.goal, c.s.goal);
 		}
 		// UDP
@@ -228,7 +232,7 @@ struct Prog
 	{
 		aux.emplace_back(new asio::high_resolution_timer(*ios[0]));
 		auto* t = aux.back().get();
-		t->expires_after(duration(d));
+		t->expires_after(duration(d + (now_ns() < t_base ? t_base : 0)));
 		t->async_wait([fn](error_code const& ec) { if (!ec) fn(); });
 	}
 	void arm_timer(std::size_t i, int depth)
